@@ -151,12 +151,12 @@ func vh07Pick(a, b *vh07Req, rel string) (pa, pb string, ok bool) {
 		p := byType(t, false)
 		return p, p, true
 	case "entrychild": // the second request works on the very entry the first one names
-		if a.entry("a") == "" || (b.target != "file" && b.target != "any") {
+		if a.entry("a") == "" || strings.HasPrefix(a.entry("a"), "n") || (b.target != "file" && b.target != "any") {
 			return "", "", false
 		}
 		return "/d/c", "/d/c/" + a.entry("a"), true
 	case "entryparent":
-		if b.entry("b") == "" || (a.target != "file" && a.target != "any") {
+		if b.entry("b") == "" || strings.HasPrefix(b.entry("b"), "n") || (a.target != "file" && a.target != "any") {
 			return "", "", false
 		}
 		return "/d/c/" + b.entry("b"), "/d/c", true
